@@ -101,3 +101,10 @@ package dkg
 //@   modifies $dec, $commitChecks, $commitOK
 //@   loop 0 invariant[C11.deals.all] $commitChecks == $commitOK
 //@   ensures[C11.deals.all] result1 == nil ==> $commitChecks == $commitOK
+
+// the public keyring handed to the reconstruction is a keyring whenever no error is reported
+//@ func LoadPubPolyBLSKeyringFromBytes
+//@   safety C18
+//@   safetykinds nil dereference, index out of range
+//@   pure
+//@   ensures[C18.keyring.nonnil] result1 == nil ==> result0 != nil
